@@ -12,6 +12,9 @@ Record case := {
   c_others : list db;
   c_expr : option sexpr;                       (* the rule expression as a term of Model/SeriesSelectors.v; None: outside the fragment *)
   c_checked_pos : list N;                      (* positions of getNonFallbackSelectors(expr), in order *)
+  c_shifted_probes : list string;              (* texts of the probes (instant or range) whose selector carries an offset or an @
+                                                  modifier: the model's probes are count(selector) / count(bare) / absent(...) of
+                                                  selectors WITHOUT offset, evaluated at now / over the window ending now *)
   c_now : Z;                                   (* harness clock just before Check was called *)
   c_after : Z;                                 (* harness clock just after Check returned (same minute as c_now) *)
   c_instant : list (option Z * Z);             (* every /api/v1/query request the main server got: its [time] parameter and
@@ -145,6 +148,7 @@ Definition check_case (c : case) : option string :=
   if negb (table_complete c) then Some "regexp-table-incomplete"
   else if negb (selection_ok c) then Some "checked-selectors (getNonFallbackSelectors)"
   else if negb (forallb bare_ok (c_sels c)) then Some "stripLabels"
+  else if negb (match c_shifted_probes c with [] => true | _ => false end) then Some "probe-with-offset-or-@-modifier"
   else if negb (instant_ok c) then Some "instant-request-time-parameter"
   else if negb (forallb (range_ok c) (c_range c)) then Some "range-request-parameters"
   else
